@@ -67,3 +67,251 @@ def c03():
 
 
 CHECKS = {"C03": c03}
+
+
+# =========================================================================== shared: histories and layouts
+HIST_SCHEMAS = {
+    "ReqFirst": "package main\n\ntype Rec struct {\n\tID  int64\n\tOpt *int32\n\tS   string\n\tR   []bool\n}\n",
+    "OptFirst": "package main\n\ntype In struct {\n\tA *int64\n\tB []string\n}\n\ntype Rec struct {\n\tOpt *int32\n\tID  int64\n\tG   *In\n}\n",
+}
+
+
+def hist_programs():
+    from wfam import Program
+    return [Program("hist:" + k, v) for k, v in HIST_SCHEMAS.items()]
+
+
+def mc_layout(ck, max_ops, pages=(1, 2, 3)):
+    """Model-checks the writer state machine (all Add/Write/Close histories up to
+    max_ops calls, every page size) and runs its negative controls."""
+    st = tr = 0
+    base = {"NCols": 2, "MaxOps": max_ops, "FaultAt": "{}", "EmptyWriteEmitsPages": "FALSE",
+            "FooterSkipsDroppedBytes": "FALSE", "FooterCountsAddedRows": "FALSE", "SwallowSinkError": "FALSE"}
+    for mp in pages:
+        c = dict(base, MaxPage=mp)
+        r = model_check("MC_Layout", c, ["TypeOK", "FooterTruthful", "PagesLegal", "Framing", "EmptyWriteInert", "FaultReported"],
+                        workers=8, tag="mclayout%d" % mp)
+        st += r["distinct"]
+        tr += r["states"]
+    neg = []
+    for name, sw in (("L1", {"EmptyWriteEmitsPages": "TRUE", "FooterSkipsDroppedBytes": "TRUE"}), ("L2", {"FooterCountsAddedRows": "TRUE"})):
+        c = dict(base, MaxPage=2, MaxOps=6)
+        c.update(sw)
+        model_check("MC_Layout", c, ["FooterTruthful"], tag="mclayoutneg" + name, expect_violation="FooterTruthful")
+        neg.append("MC_Layout with %s: FooterTruthful violated as required" % "+".join(sw))
+    ck.cov["states"] = ck.cov.get("states", 0) + st
+    ck.cov["transitions"] = ck.cov.get("transitions", 0) + tr
+    ck.cov.setdefault("negative_controls", []).extend(neg)
+
+
+def rec_cycle(recs, seed):
+    """an endless, seed-dependent cycle through exported records"""
+    i = seed
+    while True:
+        yield recs[i % len(recs)]
+        i += 1
+
+
+def history_key(p, case):
+    h = "".join("a" if o["op"] == "add" else "w" if o["op"] == "write" else "c" for o in case["ops"])
+    return "%s|%s" % (p.key, h)
+
+
+def history_key_cfg(p, case):
+    return "%s|page=%d|%s" % (history_key(p, case), case["page"], case["codec"])
+
+
+# =========================================================================== C06
+def c06():
+    ck = Check("C06", "model_checking")
+    q = ck.quick()
+    n = 6 if q else 9
+    mc_layout(ck, n + 1 if q else 10)
+    words = export_histories(n)
+    progs = build_programs(hist_programs())
+    if len(usable(progs)) != len(progs):
+        raise HarnessError("history schemas do not build: %s" % [p.build for p in progs if p.build["status"] != "ok"])
+    load_schemas(progs)
+    recs = export_records([(p.key, p.schema) for p in progs], 2, 60, ck.seed)
+    distinct = set()
+    for p in progs:
+        cyc = rec_cycle(recs[p.key]["recs"], ck.seed)
+        for wi, w in enumerate(words):
+            for page in (1, 2, 3):
+                codecs = CODECS if (q and len(w) <= 5) or not q else [CODECS[(wi + page + ck.seed) % 3]]
+                for codec in codecs:
+                    p.cases.append({"page": page, "codec": codec, "poff": (wi + ck.seed) % 16,
+                                    "ops": ops_of(w, cyc), "reads": [{"mode": "plain"}]})
+                    ck.add("evaluations")
+                    pend, nontriv = 0, False
+                    for ch in w:
+                        if ch == "a":
+                            pend += 1
+                        else:
+                            nontriv = nontriv or pend == 0 or pend >= page
+                            pend = 0
+                    if nontriv or pend > 0:
+                        distinct.add((p.key, w, page, codec))
+    ck.cov["distinct_nontrivial"] = len(distinct)
+    ck.cov["rule"] = ("every word over {Add, Write} of length <= %d (TLC ExportHist, %d words) followed by Close x page size 1..3 x codecs x 2 "
+                      "schemas (required-first, optional-first); non-trivial = the history has a Write with nothing pending, a batch of at "
+                      "least the page size, or records pending at Close; distinct by (schema, word, page size, codec)" % (n, len(words)))
+    ck.cov["exhaustive"] = True
+    run_programs(progs, "c06", timeout=1800)
+    for p in progs:
+        ck.sample({"schema": p.key, "history": "aawwaaaw + Close", "page": 2})
+    judge_programs(ck, progs, ["C06", "HARNESS"], "c06", describe=history_key)
+    ck.assumptions += ["a history is replayed with records from TLC's ExportRecs; which records are used does not matter for this property"]
+    ck.finish()
+
+
+CHECKS["C06"] = c06
+
+
+# =========================================================================== C02
+def layout_cases(p, rr, seed, reads=None, light=False):
+    """A spread of layouts for one program: one batch / small pages / several batches."""
+    k = max(3, len(rr))
+    third = max(1, k // 3)
+    plans = [(1000, "a" * k + "w"), (2, "a" * k + "w"), (1, "a" * third + "w" + "a" * third + "w" + "a" * (k - 2 * third) + "w"),
+             (3, "a" * (k - third) + "w" + "a" * third + "w")]
+    out = []
+    for i, (page, hist) in enumerate(plans):
+        c = {"page": page, "codec": CODECS[(i + seed) % 3], "poff": (seed * 5 + i * 3) % 16, "ops": ops_of(hist, rec_cycle(rr, seed + i))}
+        if reads:
+            c["reads"] = reads
+        if light:
+            c["light"] = True
+        out.append(c)
+    return out
+
+
+def c02():
+    ck = Check("C02", "model_checking")
+    q = ck.quick()
+    mc_layout(ck, 6 if q else 9)
+    forests = export_shapes(3 if q else 4)
+    progs = fixed_programs() + hist_programs() + universe_programs(forests, toff_fn=lambda i, f: i + 3 * ck.seed)
+    build_programs(progs)
+    ok = usable(progs)
+    ck.cov["programs_total"], ck.cov["programs_built"] = len(progs), len(ok)
+    load_schemas(ok)
+    recs = export_records([(p.key, p.schema) for p in ok], 2, 12 if q else 40, ck.seed)
+    words = export_histories(5 if q else 7)
+    distinct = set()
+    for p in ok:
+        rr = recs[p.key]["recs"]
+        p.cases = layout_cases(p, rr, ck.seed)
+        if p.key.startswith("hist:"):
+            cyc = rec_cycle(rr, ck.seed)
+            for wi, w in enumerate(words):
+                p.cases.append({"page": 1 + wi % 3, "codec": CODECS[wi % 3], "poff": wi % 16, "ops": ops_of(w, cyc)})
+        for c in p.cases:
+            ck.add("evaluations")
+            h = history_key(p, c)
+            if c["page"] < 1000 or h.count("w") > 1:
+                distinct.add((h, c["page"], c["codec"]))
+    ck.cov["distinct_nontrivial"] = len(distinct)
+    ck.cov["rule"] = ("files written by every program of F, the history schemas and the bounded grammar, with TLC-exported records in four "
+                      "layouts (one batch; page size 2; three batches with page size 1; two batches with page size 3) and, for the history "
+                      "schemas, every Add/Write history up to the bound; non-trivial = more than one page per chunk or more than one row "
+                      "group; distinct by (program, history, page size, codec)")
+    ck.cov["exhaustive"] = False
+    run_programs(ok, "c02")
+    ck.sample({"program": ok[0].key, "layouts": "a^k w | page 2 | three batches page 1 | two batches page 3"})
+    ck.sample({"program": ok[-1].key, "case": ok[-1].cases[0]["ops"][:3]})
+    judge_programs(ck, ok, ["C02", "HARNESS"], "c02")
+    ck.assumptions += ["harness/pq is the independent Parquet/thrift-compact reader; pages are attributed to columns by consuming, per column "
+                       "in schema order, pages until the batch's record count is reached (column chunks are contiguous by the format)",
+                       "total_byte_size may be the compressed or the uncompressed sum; file_offset may be chunk start, chunk end or 0"]
+    ck.finish()
+
+
+CHECKS["C02"] = c02
+
+
+# =========================================================================== C01
+def compositions(words):
+    """histories without empty writes that end in a Write: the splits of n records into non-empty batches"""
+    out = []
+    for w in words:
+        if w and w[0] == "a" and w[-1] == "w" and "ww" not in w:
+            out.append(w)
+    return out
+
+
+def big_record(rng, schema, max_list, big_strings):
+    """A random record with long lists (and, rarely, a 70 kB string) - beyond the TLC bounds."""
+    def val(n):
+        def base():
+            if n["typ"] == "group":
+                return [val(k) for k in n["kids"]]
+            if n["typ"] == "string" and big_strings and rng.random() < 0.02:
+                return 999
+            return rng.randrange(0, 16)
+        if n["rep"] == "req":
+            return base()
+        if n["rep"] == "opt":
+            return [] if rng.random() < 0.3 else [base()]
+        m = rng.choice([0, 0, 1, 2, 3, 8, 9, rng.randrange(0, max_list)])
+        return [base() for _ in range(m)]
+    return [val(n) for n in schema]
+
+
+def c01():
+    ck = Check("C01", "model_checking")
+    q = ck.quick()
+    mc_layout(ck, 6 if q else 8)
+    progs = build_programs(fixed_programs() + hist_programs())
+    ok = usable(progs)
+    if len(ok) != len(progs):
+        raise HarnessError("fixed schema set does not build: %s" % [(p.key, p.build["detail"][:200]) for p in progs if p.build["status"] != "ok"])
+    load_schemas(ok)
+    nmax = 5 if q else 8
+    words = compositions(export_histories(2 * nmax))
+    words = [w for w in words if w.count("a") <= nmax]
+    recs = export_records([(p.key, p.schema) for p in ok], 2, 60 if q else 300, ck.seed)
+    distinct = set()
+    for pi, p in enumerate(ok):
+        cyc = rec_cycle(recs[p.key]["recs"], ck.seed + pi)
+        for wi, w in enumerate(words):
+            n = w.count("a")
+            for page in sorted({1, 2, 3, 4, n + 1}):
+                codecs = CODECS if not q else [CODECS[(wi + page + ck.seed) % 3]]
+                for codec in codecs:
+                    p.cases.append({"page": page, "codec": codec, "poff": (wi * 3 + page + ck.seed) % 16, "ops": ops_of(w, cyc),
+                                    "mutate": (wi + page) % 2 == 0, "light": True,
+                                    "reads": [{"mode": "plain"}, {"mode": "scanstable"}]})
+                    ck.add("evaluations")
+                    if w.count("w") > 1 or page <= n:
+                        distinct.add((p.key, w, page, codec))
+        # beyond the TLC bounds: seeded random workloads with long lists, many records, big pages
+        for b in range(2 if q else 6):
+            nrec = ck.rng.choice([9, 17, 64, 130] if q else [9, 64, 257, 1000, 3000])
+            page = ck.rng.choice([1, 7, 8, 9, 64, 1000])
+            rr = [big_record(ck.rng, p.schema, 40 if q else 300, b == 0) for _ in range(nrec)]
+            cut = sorted(ck.rng.sample(range(1, nrec), min(2, nrec - 1)))
+            hist = "a" * cut[0] + "w" + "a" * (cut[1] - cut[0]) + "w" + "a" * (nrec - cut[1]) + "w"
+            p.cases.append({"page": page, "codec": CODECS[b % 3], "poff": ck.rng.randrange(16), "ops": ops_of(hist, rr), "light": True,
+                            "mutate": True, "reads": [{"mode": "plain"}]})
+            ck.add("evaluations")
+            ck.add("random_big_workloads")
+            distinct.add((p.key, "big", b, page))
+    ck.cov["distinct_nontrivial"] = len(distinct)
+    ck.cov["rule"] = ("for each schema of F (all 8 types x required/optional/repeated, nested, repeated and embedded groups): every split of "
+                      "n <= %d records into non-empty batches (TLC ExportHist) x page size {1,2,3,4,n+1} x codec, records = TLC-exported structures "
+                      "concretised from adversarial value pools (min/max ints, +-0, +-Inf, NaN payloads, empty/long/non-UTF8/sentinel strings), "
+                      "half of the cases mutate the record after Add, every case is read twice (plain, and re-checking every scanned record after "
+                      "each later Scan); plus seeded random workloads up to 3000 records, lists up to 300, 70 kB strings; non-trivial = more than "
+                      "one batch or more than one page; distinct by (schema, split, page size, codec)" % nmax)
+    ck.cov["exhaustive"] = False
+    run_programs(ok, "c01", timeout=1800)
+    ck.sample({"schema": "fixed:AllTypes", "split": "aawaaaw", "page": 2, "codec": "gzip", "mutate_after_add": True})
+    ck.sample({"schema": ok[1].key, "record": ok[1].cases[0]["ops"][0].get("rec")})
+    judge_programs(ck, ok, ["C01", "HARNESS"], "c01", describe=history_key_cfg)
+    ck.assumptions += ["value fidelity is decided by mapping each concrete value read back to its pool token by bit pattern (Go, trusted base); "
+                       "TLC compares token-carrying records"]
+    ck.finish()
+
+
+CHECKS["C01"] = c01
